@@ -16,9 +16,10 @@ import (
 
 func init() {
 	fw.Register(&fw.Property{
-		ID:     "C15",
-		Level:  "exploration",
-		Jitter: true,
+		ID:         "C15",
+		Level:      "exploration",
+		Jitter:     true,
+		RaceSample: true,
 		Rule: "relations between observed runs: (0) toMultiAlign --start/--end vs the untrimmed run, all windows for references of length <= 14 and 30 random windows (incl. s=1, e=L, s=e, each bound alone) otherwise, pad on/off; (1) legacy --trim/--trimstart/--trimend vs --start/--end through the binary, incl. refusal of mixed flag families; (2) toPairAlign --start/--end vs the untrimmed pair cut at the columns of reference bases s and e; (3) --wrap w in {1,2,3,59,60,61,L-1,L,L+1,10^6} for toMultiAlign and toPairAlign; (4) variants / sam variants with --start, --end or both (per-sequence and --aggregate) vs the unrestricted list filtered by position; (5) stdin vs file for variants through the binary; " +
 			"distinct non-trivial = distinct (relation kind, window shape, pad, wrap class, format/form) instances",
 		Assumptions: []string{"for aa records the position is the codon's first base in reading order; codons spanning a join or straddling a window bound are not judged"},
